@@ -27,3 +27,4 @@ import Ufw.Tie.RegFns.EndToEnd
 #print axioms Ufw.Tie.RegFns.ofNat_address
 #print axioms Ufw.Tie.RegFns.c_taint_selects
 #print axioms Ufw.Tie.RegFns.c_foreach_overlap
+#print axioms Ufw.Tie.RegFns.c_entry_in_area
